@@ -243,6 +243,23 @@ CHECKS['C15'] = dict(
    technique="TLA+ tree machine = contract plus line contract (TLC) + spec->code replay for pug/haml/slim",
    ref="5/C15")
 
+CHECKS['C12'] = dict(
+   text="FormatGen.tla (on AbbrTree.tla: generator, stack machine = depth contract) generates abbreviations over block, inline, implicit "
+        "and self-closed elements with ids, classes (the comment triggers), attributes, single- and multi-line text, groups and "
+        "repeaters, and the content listing every option row must print. Every abbreviation is expanded by the real code under eight "
+        "option rows (html, xml, jsx, vue, xsl, svelte x format on/off, three indent strings, \\n and \\r\\n, baseIndent, inlineBreak "
+        "0/2/3, formatLeafNode, formatSkip, formatForce, comments with default and custom before/after, self-closing styles). (a) The "
+        "content read by the independent lexer (names, nesting, ids, classes, attributes, text, self-closing) must equal the contract "
+        "under every row. (b) Every output is turned into a trace of line / open / close / self-close / text / comment events and "
+        "validated by Trace_Format.tla, whose state is the stack of open elements with the indentation of their opening line: every "
+        "line after the first starts with baseIndent plus one unit per open element, a closing tag on its own line is aligned with "
+        "its opening tag's line, a comment is adjacent to an element carrying a trigger attribute.",
+   note="Indentation clauses are judged for rows with format on and no generated name in formatSkip. Known findings F19 (multi-line "
+        "text + children) and F27 (forced inner break on a leaf whose open tag is inside a line) are matched by clause + flags "
+        "computed from the input. Bounded generator; trace judged up to the first rejected event.",
+   technique="TLA+ generator with content contract (TLC) + spec->code content replay + code->spec trace validation of the layout",
+   ref="5/C12")
+
 NOT_YET = {}
 
 def main():
